@@ -52,11 +52,43 @@ def sources(tier, seed, ctx):
         kept += sibs[:6]
     note.append(f'simulate: {num} behaviours of depth 12 (18 types, 8 labels, <=6 gates), {len(sims)} printed, {len(kept)} kept')
     srcs += [{'k': 'hist', 'acts': h, 'from': 'sim'} for h in kept]
-    nrand = 1500 if tier == 'quick' else 20000
+    nrand = 700 if tier == 'quick' else 20000
     for j in range(nrand):
         srcs.append({'k': 'rand', 'seed': rng.randrange(10**9), 'n': rng.randint(4, 16), 'from': 'rand'})
+    harvested = harvest(tier)
+    note.append(f'{len(harvested)} outermost public mutator calls harvested from the repository\'s own tests run under vf/tracer.py')
+    srcs += [{'k': 'harvested', 'rec': r, 'from': 'harvest'} for r in harvested]
     ctx['gen_note'] = '; '.join(note)
     return srcs
+
+
+def harvest(tier):
+    """Run (part of) the repository's test suite under the tracer; returns the logged steps."""
+    import json
+    import os
+    import subprocess
+    import sys
+
+    from .. import REPO, VERIF, tlc
+
+    wd = tlc.workdir('C02-harvest')
+    out = os.path.join(wd, 'trace.jsonl')
+    env = dict(os.environ)
+    env.update({'CIRBO_VERIF_TRACE': '1', 'CIRBO_VERIF_TRACE_OUT': out, 'PYTHONPATH': os.path.join(VERIF, 'harness'),
+                'CIRBO_VERIF_TRACE_MAX': '4000' if tier == 'quick' else '60000'})
+    targets = ['tests/cirbo/core/circuit', 'tests/cirbo/core/parser'] if tier == 'quick' else ['tests']
+    subprocess.run([sys.executable, '-m', 'pytest', '-q', '-x', '-p', 'no:cacheprovider', '-p', 'vf.tracer', '--continue-on-collection-errors',
+                    '-o', 'addopts=', *targets], cwd=REPO, env=env, capture_output=True, text=True, timeout=1800)
+    recs = []
+    if os.path.exists(out):
+        with open(out) as f:
+            for ln in f:
+                try:
+                    recs.append(json.loads(ln))
+                except Exception:
+                    pass
+    tlc.cleanup(wd)
+    return recs
 
 
 def probes():
@@ -66,6 +98,12 @@ def probes():
 
 
 def record(src):
+    if src['k'] == 'harvested':
+        r = src['rec']
+        step = {'act': r['act'], 'ret': r['ret'], 'post': r['post']}
+        if 'exc' in r:
+            step['exc'] = r['exc']
+        return {'kind': 'hist', 'prop': 'C02H', 'init': r['pre'], 'steps': [step], 'src': {'k': 'harvested', 'rec': r, 'from': 'harvest'}}
     if src['k'] == 'hist':
         case = hist.run_history(src['acts'], PROP)
     else:
